@@ -1,9 +1,10 @@
 package main
 
 import (
-	"net/http"
+	"context"
 	"fmt"
 	"io"
+	"net/http"
 	"net/http/httptest"
 	"strconv"
 	"strings"
@@ -63,7 +64,7 @@ func parseChainActs(s string) ([]chainAct, bool) {
 				return nil, false
 			}
 			out = append(out, chainAct{kind: k})
-		case 'e', 's', 'x', 'i', 'c', 'w', 'b', 'W', 'Y', 'q':
+		case 'e', 's', 'x', 'i', 'c', 'w', 'b', 'W', 'Y', 'q', 'k':
 			n, err := strconv.Atoi(tok[1:])
 			if err != nil || n < 0 {
 				return nil, false
@@ -116,6 +117,13 @@ func mkHandler(cr *chainRun, pos int, acts []chainAct) rux.HandlerFunc {
 				}()
 			case 'e':
 				cr.add("M%d.%d", pos, a.arg)
+			case 'k':
+				// a marker for the model; the real handler also gives the request a derived context that is cancelled when
+				// the handler returns (what a timeout middleware does: `defer cancel()`): the response is still committed
+				cr.add("M%d.%d", pos, a.arg)
+				kctx, cancel := context.WithCancel(c.Req.Context())
+				c.Req = c.Req.WithContext(kctx)
+				defer cancel()
 			case 'q':
 				// a marker for the model; the real handler also records an error (c.AddError): these routers have no
 				// OnError handler, so nothing observable may depend on it
@@ -778,6 +786,8 @@ func genFiller(r *Rand, k int, rich bool) []string {
 		switch x := r.Intn(20); {
 		case x < 7:
 			out = append(out, "e"+strconv.Itoa(r.Intn(10)))
+		case x < 8 && r.Bool():
+			out = append(out, "k"+strconv.Itoa(r.Intn(10)))
 		case x < 8:
 			out = append(out, "q"+strconv.Itoa(r.Intn(10)))
 		case x < 16:
